@@ -150,6 +150,10 @@ type world struct {
 	uses      int
 	// failures of OTHER validation types seen after a declared history (none on a verifier that keeps no state)
 	strayFailures int
+	// history calls that came back without an outcome
+	refusedHistory int
+	// observed calls that came back without an outcome
+	refusedObserved int
 	// stock validator mode: how the OCSP responder of certificate k behaves in the current case, and what
 	// the stock validator reported
 	behave      []string
@@ -954,7 +958,10 @@ func runCase(w *world, in Input, format string) Obs {
 			v, err = verifier.NewVerifierWithOptions(store, opts)
 		}
 		if err != nil {
-			panic(err)
+			// a constructor that refuses a configuration the case is entitled to: an observation (the model
+			// never predicts it), not the end of the run
+			w.refusedObserved++
+			return Obs{Outcome: "noVerifier"}
 		}
 		lv = &liveVerifier{v: v, store: store, rev: rev}
 		w.verifiers[key] = lv
@@ -985,8 +992,10 @@ func runCase(w *world, in Input, format string) Obs {
 				v.(verifySkipper).SkipVerify(context.Background(), notation.VerifierVerifyOptions{ArtifactReference: artifactOf(st), SignatureMediaType: format})
 				continue
 			}
-			if out, err := callUnder(context.Background(), v, st, ociEnv, blobEnv, format); out == nil {
-				panic(fmt.Sprintf("c05: history call %s: %v", h, err))
+			// whatever the code under test does with a history call - refusing it included - is its
+			// business; it is counted, the observed call follows (seeded C05-4 made the harness die here)
+			if out, _ := callUnder(context.Background(), v, st, ociEnv, blobEnv, format); out == nil {
+				w.refusedHistory++
 			}
 		}
 	}
@@ -1015,7 +1024,11 @@ func runCase(w *world, in Input, format string) Obs {
 		}
 	}
 	if outcome == nil {
-		panic("c05: nil outcome")
+		// the verifier refused the call before any outcome existed (no policy document for this entry point, ..):
+		// an observation like any other - the model never predicts it, so it shows as a difference
+		w.refusedObserved++
+		o.Outcome = "noOutcome"
+		return o
 	}
 	for _, r := range outcome.VerificationResults {
 		if r.Type != trustpolicy.TypeRevocation {
@@ -1699,6 +1712,12 @@ func Run(c *common.Ctx) error {
 	}
 	for k := 0; k < w.strayFailures; k++ {
 		c.Count("other-type-failure-after-history")
+	}
+	for k := 0; k < w.refusedHistory; k++ {
+		c.Count("history-call-without-outcome")
+	}
+	for k := 0; k < w.refusedObserved; k++ {
+		c.Count("observed-call-without-outcome")
 	}
 	c.SetExhaustive(true)
 	c.Note("all 340 result vectors over chains of length 1..4 x {x509, signingAuthority} x {validator, deprecated client} x the statements about revocation a user can write (strict / permissive / audit x {no override, enforce, log, skip}, and the level skip: all 13 for chains up to three, one per denoted action for chains of four), next to random overrides of other types, policy built in code or parsed from JSON text; validator-level error on a quarter, and a block of every error kind (%d: plain, empty message, typed nil pointer, context.Canceled / DeadlineExceeded bare, wrapped, joined, from the validator's own timeout / cancellation, url.Error, net timeouts, os.ErrDeadlineExceeded, typed OCSP / chain errors) x caller context {background, live deadline, cancelled, expired} x both interfaces x logging and enforcing statements; random method annotations; per-server results behind every per-certificate result (none, one, several; typed OCSP / CRL / chain errors, all servers timed out, a server that answered among errored ones) at random everywhere and in a block of every vector with an Unknown certificate x every error kind x three shapes; NIL pointers in the answer: a nil ENTRY of the vector (read by the model as unknown: fail closed, never a nil dereference) on a fifth of the scripted vectors that hold an Unknown and in a block of every vector up to three x every non-empty set of its Unknown positions x both interfaces x 3 actions x 3 placements of nil SERVER results, which also occur at random among the server results everywhere; the stock notation-core-go validator (both interfaces) behind an HTTP transport whose per-certificate OCSP responders answer good / revoked / unknown / garbage / 503 / refuse / time out, its report recorded as the vector; half of the fresh verifiers primed with an all-OK answer for the same chain; the dynamic type of the supplied object (a deprecated client that ALSO has ValidateContext, a context-aware validator that ALSO has Validate, that other method answering all OK / all revoked / an error; a timestamping validator supplied next to it): at random on a quarter of the enumeration and a block of every vector up to three x both interfaces x 3 answers x 3 actions; one long-lived verifier holding several statements in one or BOTH documents (OCI + blob; a namesake of the applicable statement in the other document, other scopes, the wildcard / global statement) saying different things about revocation, with a declared history of earlier calls (Verify / VerifyBlob under the companions or the applicable statement, SkipVerify) before the observed call, through all three entry points (Verify, VerifyBlob by name, VerifyBlob global): a block of 3 entry points x 13 statements x 3 companion actions x 6 placements / orders, and at random on the enumeration; real JWS/COSE envelopes through verifier.Verify / VerifyBlob", len(ErrorKinds))
